@@ -257,6 +257,16 @@ def snapshot(repo, root, tmpdir):
                 h.update(fh.read())
     snap["files"] = h.hexdigest()
     snap["tmp"] = sorted(os.listdir(tmpdir))
+    # other facets of "exactly as it was": configuration, stash, hooks, the set of files directly under .git
+    gitdir = _git(repo, "rev-parse", "--git-common-dir").strip()
+    gitdir = gitdir if os.path.isabs(gitdir) else os.path.join(repo, gitdir)
+    try:
+        with open(os.path.join(gitdir, "config"), "rb") as fh:
+            snap["config"] = hashlib.sha256(fh.read()).hexdigest()
+    except OSError:
+        snap["config"] = None
+    snap["stash"] = _git(repo, "stash", "list", check=False)
+    snap["gitdir-entries"] = sorted(n for n in os.listdir(gitdir) if n not in ("index", "ORIG_HEAD", "FETCH_HEAD", "COMMIT_EDITMSG", "logs", "packed-refs", "worktrees"))  # files Git itself creates or drops as a side effect of ref and worktree bookkeeping
     return snap
 
 
